@@ -39,11 +39,16 @@ func c19PlanRequest(e *c19Env, id types.RequestID, maxRaw, nDS int, eidBase int)
 	r.found = r.fails < e.maxTry && vs.Bool("request_exists")
 	p.selected = r.found && vs.Bool("validator_selected")
 	relevant := p.selected
+	vary := vs.Param("vary_shape") != 0 // 0: fixed validator position / key count, version choice on the last raw only
 	p.vals = 2
 	vals := []sdk.ValAddress{venv.ValAddr(2), venv.ValAddr(3)}
 	nRaw := 1
 	if relevant {
-		vals[vs.Pick("validator_position", p.vals)] = venv.ValAddr(1)
+		pos := 1
+		if vary {
+			pos = vs.Pick("validator_position", p.vals)
+		}
+		vals[pos] = venv.ValAddr(1)
 		nRaw = 1 + vs.Pick("raw_count", maxRaw)
 	}
 	raws := make([]types.RawRequest, nRaw)
@@ -75,7 +80,7 @@ func c19PlanRequest(e *c19Env, id types.RequestID, maxRaw, nDS int, eidBase int)
 		if !seen {
 			p.used = append(p.used, d)
 		}
-		raw := c19PlanRaw(c19EIDs[i]+types.ExternalID(eidBase), d, i%3, relevant && i > 0)
+		raw := c19PlanRaw(c19EIDs[i]+types.ExternalID(eidBase), d, i%3, relevant && i > 0 && (vary || i == nRaw-1))
 		r.raws = append(r.raws, raw)
 		raws[i] = types.NewRawRequest(raw.eid, d.id, raw.calldata)
 	}
@@ -200,7 +205,10 @@ func VerifC19Request() {
 	p := c19PlanRequest(e, id, vs.Param("max_raw"), vs.Param("n_ds"), 0)
 	nKeys := 1
 	if p.lookedUp(e) {
-		nKeys = 1 + vs.Pick("key_count", 2)
+		nKeys = 2
+		if vs.Param("vary_shape") != 0 {
+			nKeys = 1 + vs.Pick("key_count", 2)
+		}
 	}
 	rr := vs.I64("round_robin")
 	vs.Assume(rr >= -1 && rr < 1<<62)
